@@ -750,12 +750,14 @@ fn install_gate() {
         if name == "matcher.before_commit" && GATE_ARMED.swap(false, SeqCst) {
             GATE_PARKED.store(true, SeqCst);
             let start = Instant::now();
-            while !GATE_OPEN.load(SeqCst) {
-                std::thread::sleep(Duration::from_micros(200));
-                if start.elapsed() > Duration::from_secs(20) {
-                    break;
+            tokio::task::block_in_place(|| {
+                while !GATE_OPEN.load(SeqCst) {
+                    std::thread::sleep(Duration::from_micros(200));
+                    if start.elapsed() > Duration::from_secs(20) {
+                        break;
+                    }
                 }
-            }
+            });
             GATE_OPEN.store(false, SeqCst);
             GATE_PARKED.store(false, SeqCst);
         }
